@@ -834,6 +834,34 @@ func c5eval(src string, wantAllows bool) (res c5res) {
 	return res
 }
 
+// c5evalAPI evaluates schema and data as separate values of one file and combines them
+// through the Go API: Value.Unify and Value.FillPath.  Returns the two classes.
+func c5evalAPI(schema, data *c5e) (uni, fill string) {
+	uni, fill = "panic", "panic"
+	defer func() { recover() }()
+	src := c5source(schema, nil)
+	var defs []string
+	var db strings.Builder
+	data.cue(&db, &defs)
+	src += "y: " + db.String() + "\n"
+	ctx := cuecontext.New()
+	v := ctx.CompileString(src)
+	x := v.LookupPath(cue.ParsePath("x"))
+	y := v.LookupPath(cue.ParsePath("y"))
+	if !x.Exists() || !y.Exists() {
+		return "compile-error", "compile-error"
+	}
+	cls := func(z cue.Value) string {
+		if z.Validate(cue.Concrete(true)) != nil {
+			return "err"
+		}
+		return "ok"
+	}
+	uni = cls(x.Unify(y))
+	fill = cls(v.FillPath(cue.ParsePath("x"), y).LookupPath(cue.ParsePath("x")))
+	return uni, fill
+}
+
 // contexts are reused for a while (creating one per case dominates the run time)
 var c5ctxPool = sync.Pool{New: func() any { return &c5ctxBox{} }}
 
@@ -1050,6 +1078,7 @@ type c5case struct {
 }
 
 type c5out struct {
+	uni, fill string // classes through Value.Unify / Value.FillPath ("" = not asked)
 	tag     string            // known-finding class of the accepted case (attributed), or ""
 	atag    map[string]string // per label: known class of a wrong Allows=true answer (attributed)
 	skip    bool              // an embedded value is erroneous on its own (region the model does not represent)
@@ -1106,6 +1135,9 @@ func c5run(cs c5case, direct bool) c5out {
 				}
 			}
 		}
+	}
+	if strings.HasPrefix(cs.kind, "def-") || cs.kind == "corpus" || cs.kind == "replay" || direct {
+		o.uni, o.fill = c5evalAPI(cs.schema, cs.data)
 	}
 	if !direct {
 		return o
@@ -1179,6 +1211,22 @@ func c5emit(c *Cfg, o c5out) {
 			}
 			c.OpTag("O", atag, "allows "+sw+" "+dw+" "+l, fmt.Sprint(o.res.allows[l]))
 		}
+	}
+	if o.uni != "" {
+		// separate observables: the API may combine closedness information differently from
+		// source-level `&`.  Known only in the recorded direction (the API accepts what
+		// source-level unification of the same evaluator rejects) — a discrepancy between the
+		// two entry points of the unchanged tree, see known-findings.
+		ut, ft := tag, tag
+		if o.uni == "ok" && o.res.class == "err" {
+			ut = "api-unify-accepts-what-source-rejects"
+		}
+		if o.fill == "ok" && o.res.class == "err" {
+			ft = "api-fillpath-accepts-what-source-rejects"
+		}
+		c.OpTag("O", ut, "uni "+sw+" "+dw, o.uni)
+		c.OpTag("O", ft, "fill "+sw+" "+dw, o.fill)
+		c.Count("api/uni-" + o.uni + "/src-" + o.res.class)
 	}
 	c.Count("class/" + o.res.class)
 	c.Count("kind/" + o.cs.kind)
@@ -1450,6 +1498,55 @@ func runC05(c *Cfg) {
 					for _, off := range offenders {
 						add("def-embeds-close-conj", conj(s, off), lit())
 						add("def-embeds-close-conj", conj(s, off), lit(B("", c5one)))
+					}
+				}
+			}
+		}
+	}
+
+	// ---- close() as a FIELD VALUE inside a definition body that also has an embedding;
+	// violation at depth 1, 2, 3 (4 in thorough) below that field
+	{
+		leaf := lit(fld("x", "?", c5int))
+		// X with 1-2 (3 in thorough) nested struct levels: {a: leaf}, {a: {a: leaf}}, ...
+		var xs []*c5e
+		for _, m := range []string{"", "?"} {
+			xs = append(xs, lit(A(m, leaf)), lit(A(m, lit(A(m, leaf)))))
+			if c.Thorough() {
+				xs = append(xs, lit(A(m, lit(A(m, lit(A(m, leaf)))))))
+			}
+		}
+		nest := func(depth int, bad bool) *c5e { // data b: a: a: ... : z/x
+			l := "x"
+			if bad {
+				l = "z"
+			}
+			v := lit(fld(l, "", c5one))
+			for i := 1; i < depth; i++ {
+				v = lit(A("", v))
+			}
+			return v
+		}
+		embs := [][]c5d{
+			{emb(lit(C("?", c5int)))}, {emb(cl(lit(C("?", c5int))))},
+			{emb(lit(C("?", c5int))), emb(cl(lit(fld("ab", "?", c5int))))}, {emb(df(lit(C("?", c5int))))}, {},
+		}
+		maxd := c.Pick(4, 5)
+		for _, x := range xs {
+			for _, fd := range []c5d{B("", cl(x)), B("?", cl(x)), B("!", cl(x)), ptn("b$", cl(x)), ptn("*", cl(x)), B("?", x), B("", df(x))} {
+				for _, es := range embs {
+					body := lit(append([]c5d{fd}, es...)...)
+					for _, s := range []*c5e{df(body), lit(emb(df(body))), conj(df(body), lit()), df(lit(emb(df(body)))), body, cl(body)} {
+						for dep := 1; dep <= maxd; dep++ {
+							for _, bad := range []bool{true, false} {
+								dv := nest(dep, bad)
+								add("def-field-close", s, lit(B("", dv)))
+								if bad {
+									add("def-field-close-conj", conj(s, lit(B("", dv))), lit())
+									add("def-field-close-conj", conj(s, lit(B("", dv))), lit(C("", c5one)))
+								}
+							}
+						}
 					}
 				}
 			}
